@@ -151,7 +151,8 @@ var mutantCatalogue = map[string][]mutant{
 		{Name: "MVP-7 pushes at the raw address", File: "proc/mvp7-0/cc.go", Old: "shouldEvict := cc.pushLineToL1(lineAddr, data)", New: "shouldEvict := cc.pushLineToL1(comp.AlignedAddress(r.addrs[0]), data)"},
 		{Name: "store routed on the first byte only", File: "proc/mvp4/mmu.go", Old: "\t_, exists := u.getFromL1D(addrs)\n\treturn exists\n}", New: "\t_, exists := u.getFromL1D(addrs[:1])\n\treturn exists\n}"},
 		{Name: "duplicate line allowed", File: "proc/mvp7-1/cc.go", Old: "\tif cc.isAddressInL1([]int32{int32(addr)}) {\n\t\t// No need to wait if it was already in L1\n\t\treturn nil\n\t}\n", New: ""},
-		{Name: "victim written at the new address", File: "proc/mvp6-3/mmu.go", Old: "\tu.writeToMemory(int32(addr), line)\n}", New: "\tu.writeToMemory(int32(addr), evicted)\n}"},
+		{Name: "victim written at the new address", File: "proc/mvp6-3/mmu.go", Old: "u.writeToMemory(int32(evicted.Boundary[0]), evicted.Data)", New: "u.writeToMemory(int32(addr), evicted.Data)"},
+		{Name: "the new line written instead of the victim", File: "proc/mvp4/mmu.go", Old: "u.writeToMemory(evicted.Boundary[0], evicted.Data)", New: "u.writeToMemory(addr, line)"},
 		{Name: "L3 dirty flag keyed by the L1 alignment", File: "proc/mvp8-0/cc.go", Old: "\tl3Addr := getL3AlignedMemoryAddress([]int32{int32(l1Addr)})\n\tcc.msi.l3WriteNotify(l3Addr)", New: "\tl3Addr := getL1AlignedMemoryAddress([]int32{int32(l1Addr)})\n\tcc.msi.l3WriteNotify(l3Addr)"},
 	},
 	"C06": {
